@@ -584,4 +584,79 @@ Section XProofs.
       destruct (fold_fr_rel L s0 m ID W0 HL) as (_ & _ & _ & _ & [[R1 _]|(_ & R2 & _)]); [auto|lia].
     - right. apply In_in_order, revoked_certs_spec in Hr as (H1 & H2 & H3). eauto.
   Qed.
+
+  (** * Further facts about the fold, used by the monitor's soundness proof *)
+  Lemma fold_fr_fails L s c :
+    idue = false -> WF s -> (forall r, In r L -> cid r < next s) -> In c L ->
+    lock_held (jobs s) (chead c) = false -> is_failing s (chead c) = true ->
+    stored (store s) (chead c) <> None ->
+    cnt (failed s) (chead c) < cnt (failed (fold_fr L s)) (chead c).
+  Proof.
+    intros ID W HL Hc LF NF SS. set (n := chead c) in *.
+    apply in_split in Hc as (L1 & L2 & ->). rewrite fold_left_app. cbn [fold_left].
+    set (t := fold_fr L1 s).
+    assert (Wt : WF t) by (apply WF_fold_fr; auto).
+    destruct (fold_fr_frame L1 s) as (Ej & _ & Ef & _ & Nt). fold t in Ej, Ef, Nt.
+    assert (R1 : pass_rel s t n) by (apply fold_fr_rel; auto; intros; apply HL; rewrite in_app_iff; auto).
+    destruct R1 as (_ & _ & C1 & _ & S1).
+    assert (St : stored (store t) n <> None).
+    { destruct S1 as [[-> _]|(_ & _ & i & _ & _ & -> & _)]; [auto|discriminate]. }
+    assert (C2 : cnt (failed (force_renew t c)) n = S (cnt (failed t) n)).
+    { destruct (fr_cases t c) as (_ & _ & _ & _ & [[_ E]|[(_ & E & _)|[(_ & _ & _ & E)|(_ & _ & E & _)]]]);
+        fold n in E.
+      - rewrite Ej in E. congruence.
+      - contradiction.
+      - cbn zeta in E. rewrite E. unfold cnt. cbn. destruct (Nat.eq_dec n n); [reflexivity|contradiction].
+      - unfold is_failing in E, NF. rewrite Ef in E. congruence. }
+    assert (W2 : WF (force_renew t c)) by (apply WF_force_renew; auto).
+    pose proof (fr_next t c) as N2.
+    assert (R2 : pass_rel (force_renew t c) (fold_fr L2 (force_renew t c)) n).
+    { apply fold_fr_rel; auto. intros r Hr.
+      assert (cid r < next s) by (apply HL; rewrite in_app_iff; cbn; auto). lia. }
+    destruct R2 as (_ & _ & C3 & _). lia.
+  Qed.
+
+  Lemma fr_issued_mono t r m : cnt (issued t) m <= cnt (issued (force_renew t r)) m.
+  Proof.
+    destruct (fr_cases t r) as (_ & _ & _ & _ & [[E _]|[(_ & _ & E)|[(_ & _ & _ & E)|(_ & _ & _ & E)]]]);
+      cbn zeta in E; rewrite E; cbn; auto.
+    unfold cnt; cbn. destruct (Nat.eq_dec (chead r) m); lia.
+  Qed.
+
+  (** what an OCSP pass adds to the cache: certificates it had issued, for the first name of a
+      revoked certificate *)
+  Lemma fold_fr_added L s y :
+    In y (cache (fold_fr L s)) ->
+    In y (cache s) \/
+    (exists i r, next s <= i /\ y = Cert i (chead r) [] idue true /\ In r L /\
+                 cnt (issued s) (chead r) < cnt (issued (fold_fr L s)) (chead r)).
+  Proof.
+    set (Q := fun t y => In y (cache s) \/
+                (exists i r, next s <= i /\ y = Cert i (chead r) [] idue true /\ In r L /\
+                             cnt (issued s) (chead r) < cnt (issued t) (chead r))).
+    assert (K : next s <= next (fold_fr L s) /\ (forall m, cnt (issued s) m <= cnt (issued (fold_fr L s)) m) /\
+                forall y, In y (cache (fold_fr L s)) -> Q (fold_fr L s) y); [|intros H; apply K; auto].
+    apply (fold_inv force_renew (fun t => next s <= next t /\ (forall m, cnt (issued s) m <= cnt (issued t) m) /\
+                                          forall y, In y (cache t) -> Q t y)).
+    - split; auto. split; auto. intros z Hz; left; auto.
+    - intros t r Hr (Nx & Mono & Ht). pose proof (fr_next t r) as N2.
+      split; [lia|]. split; [intros m; pose proof (Mono m); pose proof (fr_issued_mono t r m); lia|].
+      intros z Hz. apply fr_cache_sub in Hz as [Hz|(E & Ei & _)].
+      + destruct (Ht z Hz) as [A|(i & r' & Li & Ey & Hr' & Lt)]; [left; auto|].
+        right. exists i, r'. repeat split; auto. pose proof (fr_issued_mono t r (chead r')). lia.
+      + right. exists (next t), r. repeat split; auto; try lia.
+        rewrite Ei. unfold cnt; cbn. destruct (Nat.eq_dec (chead r) (chead r)); [|contradiction].
+        pose proof (Mono (chead r)). unfold cnt in *. lia.
+  Qed.
+
+  Lemma InSt_force_renew t r c :
+    InSt (force_renew t r) c -> InSt t c \/ c = new_cert t (chead r).
+  Proof.
+    destruct (fr_cases t r) as (_ & _ & _ & _ & [[E _]|[(_ & _ & E)|[(_ & _ & _ & E)|(_ & _ & _ & E)]]]);
+      cbn zeta in E; rewrite E; auto; rewrite !InSt_iff; comp.
+    - intros [H|H]; [apply In_cache_remove in H as [H _]|]; tauto.
+    - intros [H|H]; [apply In_cache_remove in H as [H _]|]; tauto.
+    - cbn. unfold cache_replace. intros [H|[[H|H]|H]]; auto; try tauto.
+      apply In_cache_add in H as [H| ->]; auto. apply In_cache_remove in H as [H _]; tauto.
+  Qed.
 End XProofs.
